@@ -35,27 +35,62 @@ REENTER = {
 }
 
 
-def fault_or_cancel(rng, t, spec):
-    """Attach one sampled fault or cancel aimed at transfer 0."""
-    kind = t['kind']
-    sites = []
+def sites_for(t, T=16, C=8):
+    """Boundary events that exist for transfer t (as t0) under threshold T / chunk C."""
+    kind, size = t['kind'], t.get('size', 0)
+    multi = size >= T
+    nparts = (size + C - 1) // C if multi else 0
+    sites = ['t0/cb:on_queued:s0#0']
     if kind == 'upload':
-        sites = ['t0/s3:PutObject#0', 't0/s3:CreateMultipartUpload#0', 't0/s3:UploadPart:1#0', 't0/s3:UploadPart:2#0',
-                 't0/s3:CompleteMultipartUpload#0', 't0/src:read#0', 't0/src:read#1', 't0/cb:on_queued:s0#0', 't0/cb:on_progress:s0#0']
+        src = t.get('src', 'path')
+        if src == 'path':
+            sites += ['t0/fs:size#0', 't0/fs:openr#0', 't0/src:read#0']
+        else:
+            sites += ['t0/src:read#0', 't0/src:read#1']
+        if multi:
+            sites += ['t0/s3:CreateMultipartUpload#0', 't0/s3:CompleteMultipartUpload#0'] + [f't0/s3:UploadPart:{i}#0' for i in range(1, nparts + 1)]
+        else:
+            sites += ['t0/s3:PutObject#0']
+        if size:
+            sites += ['t0/cb:on_progress:s0#0']
     elif kind == 'download':
-        sites = ['t0/s3:HeadObject#0', 't0/s3:GetObject:all#0', 't0/s3:GetObject:0#0', 't0/s3:GetObject:8#0', 't0/dst:write#0',
-                 't0/dst:write#1', 't0/fs:write#0', 't0/fs:write#1', 't0/fs:openw#0', 't0/fs:rename#0', 't0/cb:on_queued:s0#0',
-                 't0/cb:on_progress:s0#1']
+        dst = t.get('dst', 'path')
+        sites += ['t0/s3:HeadObject#0']
+        if multi:
+            sites += [f't0/s3:GetObject:{i * C}#0' for i in range(nparts)]
+        else:
+            sites += ['t0/s3:GetObject:all#0']
+        if dst in ('path', 'fifo'):
+            sites += ['t0/fs:openw#0', 't0/fs:write#0', 't0/fs:write#1']
+            if dst == 'path':
+                sites += ['t0/fs:rename#0']
+        else:
+            sites += ['t0/dst:write#0', 't0/dst:write#1']
+        if size:
+            sites += ['t0/cb:on_progress:s0#0', 't0/cb:on_progress:s0#1']
     elif kind == 'copy':
-        sites = ['t0/s3:HeadObject#0', 't0/s3:CopyObject#0', 't0/s3:CreateMultipartUpload#0', 't0/s3:UploadPartCopy:1#0',
-                 't0/s3:UploadPartCopy:2#0', 't0/s3:CompleteMultipartUpload#0', 't0/cb:on_queued:s0#0']
+        sites += ['t0/s3:HeadObject#0']
+        if multi:
+            sites += ['t0/s3:CreateMultipartUpload#0', 't0/s3:CompleteMultipartUpload#0'] + [f't0/s3:UploadPartCopy:{i}#0' for i in range(1, nparts + 1)]
+        else:
+            sites += ['t0/s3:CopyObject#0']
     else:
-        sites = ['t0/s3:DeleteObject#0', 't0/cb:on_queued:s0#0']
-    at = rng.choice(sites)
+        sites += ['t0/s3:DeleteObject#0']
+    return sites
+
+
+def fault_or_cancel(rng, t, spec, T=None, C=None):
+    """Attach one sampled fault or cancel aimed at transfer 0."""
+    cfg = spec.get('config') or {}
+    T = T or cfg.get('multipart_threshold', 16)
+    C = C or cfg.get('multipart_chunksize', 8)
+    at = rng.choice(sites_for(t, T, C))
     phase = rng.choice(['before', 'after'])
     what = rng.choice(['fault', 'cancel', 'cancel_main'])
     plan = spec.setdefault('plan', {})
     if what == 'fault':
+        if '/fs:' in at and 'write' not in at:
+            phase = 'before'
         kind_f = 'oserror' if ('/fs:' in at or '/dst:' in at) else rng.choice(['exc', 'client4xx'] if '/s3:' in at else ['exc'])
         plan['faults'] = [{'at': at, 'phase': phase, 'kind': kind_f, 'tag': 'FAULT-c04'}]
     else:
